@@ -1,5 +1,6 @@
 import Rare.Base.Proto
 import Rare.Model.C06
+import Rare.Model.C06Tree
 /-!
 Line protocol of C06.
 
@@ -8,6 +9,22 @@ Line protocol of C06.
 * `glob <recursive> <args> <fs>` – what `dirwalk.GlobExpand` sends.
 * `open <gunzip> <names> <files>` – `batchers.OpenFilesToChan` over the names: error count and lines.
 * `exit <readErrors> <hasAgg> <parseErrors> <matched>` – `DetermineErrorState`.
+
+Ops whose file system is the Lean model of `filepath.Match/Glob/Walk` over a tree sent with the case
+(`Rare/Model/C06Glob.lean`, `C06Tree.lean`):
+
+* `match <pattern> <name>` – `filepath.Match`: `ok true|false` or `bad`.
+* `clean <path>` / `join <a> <b>` – `filepath.Clean` / `filepath.Join`.
+* `fsop <tree> <paths>` – for every path: `os.Lstat`, `os.Stat` (`f`ile, `d`ir, `l`ink, `-` error) and the sorted
+  directory listing.
+* `glob1 <pattern> <tree>` – `filepath.Glob`: `ok <list>` or `bad`.
+* `globx <recursive> <args> <tree>` – `dirwalk.GlobExpand` with the model file system.
+* `runtree <gunzip> <recursive> <readers> <batch> <mode> <args> <tree> <files> <stdin> [stdinfails]` – `run` with the
+  model file system instead of an oracle table.
+
+`<tree>`: `.` or `,`-joined `hexpath:d` | `hexpath:f[:hexcontent]` | `hexpath:l:hextarget`, created in this order with
+`mkdir -p` for the parents; the root of the tree is the working directory.  Absolute paths and paths that climb above
+the root are outside the model (`unmodelled`).
 
 `<fs>`: `.` or `,`-joined `hexarg:isDir:walk-hexlist:b|f:glob-hexlist`;
 `<files>`: `.` or `,`-joined `hexpath:canOpen:isDir:hexcontent:hdrOk:probed:hexdecoded:fails`.
@@ -87,7 +104,89 @@ def sortStrs (l : List String) : List String := l.mergeSort (fun a b => decide (
 def joinOrDot (sep : String) (l : List String) : String :=
   if l.isEmpty then "." else sep.intercalate l
 
+/-! ### trees -/
+open Rare.C06.Glob in
+def parseTree (s : String) : Option Node :=
+  if s = "." then some (.dir .nil)
+  else (s.splitOn ",").foldlM (fun (t : Node) (e : String) =>
+    match e.splitOn ":" with
+    | [p, "d"] => (Hex.dec p).map fun p => t.insert (comps p) (.dir .nil)
+    | [p, "f"] => (Hex.dec p).map fun p => t.insert (comps p) .file
+    | [p, "f", _] => (Hex.dec p).map fun p => t.insert (comps p) .file
+    | [p, "l", tg] => do
+      let p ← Hex.dec p
+      let tg ← Hex.dec tg
+      pure (if tg.isEmpty then t else t.insert (comps p) (.link tg))   -- symlink(2) refuses an empty target
+    | _ => none) (.dir .nil)
+
+open Rare.C06.Glob in
+/-- a path the model does not cover: absolute, or `..` where it might leave the tree -/
+def outside (p : Bytes) : Bool := mayEscape 0 p
+
+open Rare.C06.Glob in
+def treeOutside (t : Node) : Bool := (t.linkTargets 0).any fun dt => mayEscape (dt.1 - 1) dt.2
+
+open Rare.C06.Glob in
+def kindStr : Option Node → String
+  | none => "-"
+  | some .file => "f"
+  | some (.dir _) => "d"
+  | some (.link _) => "l"
+
 def handle : List String → String
+  | ["match", pat, name] =>
+    match Hex.dec pat, Hex.dec name with
+    | some pat, some name =>
+      match Rare.C06.Glob.goMatch pat name with
+      | .matched b => s!"ok {b}"
+      | .badPattern => "bad"
+      | .outOfFuel => "fuel"
+    | _, _ => "bad-args"
+  | ["clean", p] =>
+    match Hex.dec p with
+    | some p => s!"ok {Hex.enc (Rare.C06.Glob.clean p)}"
+    | _ => "bad-args"
+  | ["join", a, b] =>
+    match Hex.dec a, Hex.dec b with
+    | some a, some b => s!"ok {Hex.enc (Rare.C06.Glob.join a b)}"
+    | _, _ => "bad-args"
+  | ["fsop", tree, paths] =>
+    match parseTree tree, decHexList paths with
+    | some t, some paths =>
+      if paths.any outside || treeOutside t then "unmodelled outside-the-tree"
+      else
+        let one (p : Bytes) : String :=
+          let ls := match Rare.C06.Glob.readDirNames t p with
+            | some names => hexList names
+            | none => "-"
+          s!"{kindStr (Rare.C06.Glob.lstat t p)}{kindStr (Rare.C06.Glob.stat t p)}:{ls}"
+        "ok " ++ joinOrDot "," (paths.map one)
+    | _, _ => "bad-args"
+  | ["glob1", pat, tree] =>
+    match Hex.dec pat, parseTree tree with
+    | some pat, some t =>
+      if outside pat || treeOutside t then "unmodelled outside-the-tree"
+      else match Rare.C06.Glob.glob t pat with
+        | .badPattern => "bad"
+        | .ok l => s!"ok {hexList l}"
+    | _, _ => "bad-args"
+  | ["globx", rec, args, tree] =>
+    match bool? rec, decHexList args, parseTree tree with
+    | some rec, some args, some t =>
+      if args.any outside || treeOutside t then "unmodelled outside-the-tree"
+      else s!"ok {hexList (planFiles (Rare.C06.treeFs t) rec args)}"
+    | _, _, _ => "bad-args"
+  | "runtree" :: gz :: rec :: readers :: batch :: mode :: args :: tree :: files :: stdin :: rest =>
+    match bool? gz, bool? rec, int? readers, int? batch, parseMode mode, decHexList args, parseTree tree,
+          parseFiles files, Hex.dec stdin with
+    | some gz, some rec, some readers, some batch, some mode, some args, some t, some files, some stdin =>
+      if args.any outside || treeOutside t then "unmodelled outside-the-tree"
+      else
+        let r := run ⟨gz, rec, readers, batch, mode⟩ args (Rare.C06.treeFs t) (mkFiles files) stdin (rest.head? == some "stdinfails")
+        let logs := joinOrDot "," (sortStrs (r.logs.map logStr))
+        let out := joinOrDot ";" (sortStrs (r.out.map Hex.enc))
+        s!"ok exit={r.exit} errs={r.readErrors} read={r.readLines} matched={r.matched} logs={logs} out={out}"
+    | _, _, _, _, _, _, _, _, _ => "bad-args"
   | "run" :: gz :: rec :: readers :: batch :: mode :: args :: fs :: files :: stdin :: rest =>
     match bool? gz, bool? rec, int? readers, int? batch, parseMode mode, decHexList args, parseFs fs,
           parseFiles files, Hex.dec stdin with
